@@ -5,9 +5,9 @@ V = os.path.dirname(os.path.dirname(os.path.abspath(__file__)))
 props = [json.loads(l) for l in open(os.path.join(V, "properties.jsonl"))]
 CLAIMED = {
  "C01": dict(
-   technique="TLC-explored grammar-automaton universes -> real NxN Compare matrices -> TLC trace validation with the rank criterion (RankExplains <=> total preorder, model-checked lemma)",
+   technique="TLC-explored grammar-automaton and small-scope token-sequence universes -> real NxN Compare matrices -> TLC trace validation with the rank criterion (RankExplains <=> total preorder, model-checked lemma)",
    text="Model checking of the order model (Order.tla: RankExplains <=> TotalPreorder checked by TLC for every 3x3 observation matrix) bound to the code by trace validation: TLC enumerates bounded universes of version texts per ecosystem (Universe.tla), the harness records the complete Compare matrix of the real code over every member, and TLC (UniversTrace.tla) decides whether one hidden rank per version explains every observed sign. Exhaustive over all pairs/triples of the universes in the thorough tier; seeded universes beyond the alphabet in both tiers.",
-   note="Trusted: TLC, the JSON trace logger of the harness (observes only the public API). Only texts generated by Universe.tla or its seeded mutations are covered; alpm judged within pkgrel partitions.",
+   note="Trusted: TLC, the JSON trace logger of the harness (observes only the public API). Covered texts: Universe.tla members, every token sequence of length <= 2 (quick) / 3 (thorough) after a stem (Tokens.tla) that the parser accepts, seeded mutations (magnitudes, zero spellings, letter case) and strings sampled from the parsers' regular expressions; the rank lemma is model-checked by TLC for all 3x3 matrices on every run and established by Apalache for all 4x4 matrices in the thorough tier; alpm judged within pkgrel partitions.",
    ref="DESIGN.md 5-C01"),
  "C10": dict(
    technique="dpkg verrevcmp transcribed in TLA+ (Dpkg.tla) as the oracle; TLC-generated universe replayed into debian.Compare; TLC judges every in-scope pair; spec audited against /usr/bin/dpkg",
@@ -52,7 +52,7 @@ CLAIMED = {
  "C05": dict(
    technique="table of documented shorthand intervals in TLA+ (Shorthand.tla / ShorthandSem.tla) explored by TLC, boundary probes derived in TLA+; real NewVersionRange/Contains replayed; TLC trace validation contains = Member(probe, documented intervals)",
    text="Shorthand.tla holds, per ecosystem, construct, arity and base, the interval(s) the ecosystem documents (caret, tilde, pessimistic, compatible release, wildcard/x-range, hyphen, brackets, unions), as 4-tuples whose last component is the release level so that npm's '<2.0.0-0' is a bound. TLC explores every row, checks the table's sanity (RowSane), renders the range text and the boundary probes; the harness runs the real parser and Contains; TLC judges every probe. The open finding KF-hex-01 (pinned by the repository's tests) is recognised only when the observed membership is exactly that of the narrower interval.",
-   note="Trusted: TLC; my reading of each ecosystem's documentation (cited in the module); probe order = tuple order (bound to Compare by C03/C08/C09). Bases {0,1,2,9}^2 x {0,3,9}; arity-4 bases and interior pre-release probes are not covered.",
+   note="Trusted: TLC; my reading of each ecosystem's documentation (cited in the module); probe order = tuple order (bound to Compare by C03/C08/C09). Bases {0,1,2,9}^2 x {0,3,9} (thorough: {0,1,2,9,10,99}^2 x {0,3,9,10}); pre-release bases in a lower-case and an upper-case family; a fourth component (X.Y.Z.65536) as probe where the ecosystem has one; arity-4 bases and interior pre-release probes are not covered.",
    ref="DESIGN.md 5-C05"),
  "C20": dict(
    technique="order-dependence laws (equal versions => equal membership; convexity) as TLA+ predicates over logged observations; range texts from the two TLC generators (RangeGen.tla, Shorthand.tla); TLC trace validation of Compare matrix + membership vectors recorded from the real code",
@@ -72,7 +72,7 @@ CLAIMED = {
  "C06": dict(
    technique="life-cycle contract in TLA+ (Api.tla, model-checked) and a TLC-explored string-builder machine over a syntax alphabet (Totality.tla) as exhaustive input generator; every string replayed into all 40 parsers, vers.Contains in every role and the real CLI; TLC trace validation of the outcome codes and the quadratic time budget",
    text="Api.tla states that a constructor call has exactly two outcomes and that observers return; TLC explores all byte strings up to length L (3 quick, 4 thorough) over a 20-byte alphabet (digits, letters, every separator/operator/bracket, space, NUL, 0xFF, a multi-byte rune start) plus long-run families up to 100k bytes; the harness logs one outcome code per entry point, observes accepted values, and measures the slowest call; TLC rejects any event containing a panic, hang, 'both'/'none' outcome, (true, error) from vers.Contains, a CLI exit status other than 0/1, or a call over the budget.",
-   note="Trusted: TLC; recover() and a per-input deadline as sensors; the time bound is a budget (5 s + 2 ms per (n/1000)^2, minimum of three measurements), not a proof. Beyond length L inputs are seeded garbage, not exhaustive; Go's coverage-guided fuzzer is not used.",
+   note="Trusted: TLC; recover() and a per-input deadline as sensors; the time bound is a budget (5 s + 2 ms per (n/1000)^2, minimum of three measurements), not a proof. Beyond length L inputs are seeded garbage (mutations of universe members, of the C02/C05 range catalogue and of strings sampled from the parsers' regular expressions) and, in the thorough tier, the corpus of Go's coverage-guided fuzzer (150 s, used only as an input generator: the corpus is replayed through the recorded harness and judged by TLC); none of these is exhaustive.",
    ref="DESIGN.md 5-C06"),
  "C07": dict(
    technique="abstract comparison sort driven by an oracle matrix model-checked by TLC (Sort.tla; cyclic oracle as negative control); all permutations from TLC replayed through slices.SortFunc(vs, V.Compare) and the real CLI; TLC trace validation of multiset equality, adjacent order and class-sequence uniqueness",
@@ -133,7 +133,7 @@ m = {
     "kind_free_text": "explicit TLA+ specification (spec/*.tla) checked with TLC; bound to the Go code by replaying TLC-generated vectors into the real API (harness/) and validating the recorded NDJSON traces with TLC (spec/UniversTrace.tla)"}],
  "checks": checks,
  "not_applicable": na,
- "notes": "Exit codes: 0 pass, 1 violation (VIOLATION line), 2 infrastructure failure (never a verdict). VERIF_SEED seeds the seeded generators; exhaustive parts do not depend on it.",
+ "notes": "Exit codes: 0 pass, 1 violation (VIOLATION line), 2 infrastructure failure (never a verdict). Every run ends with a binding self-test: one recorded field of the run's own trace is corrupted and the trace specification must reject it (else exit 2). VERIF_SEED seeds the seeded generators; exhaustive parts do not depend on it.",
 }
 json.dump(m, open(os.path.join(V, "MANIFEST.json"), "w"), indent=1)
 print("claimed", [c["property_id"] for c in checks])
